@@ -248,7 +248,10 @@ Definition wf_slave (s : slave) : Prop :=
    slaves/devices.py:_load_ports (ports of a permanently offline slave exist on the master from persisted data only):
    the owner of a record of collection slave_ports is the slave whose name followed by "." is a prefix of the record's id; the
    rest of the id is the port's id on the device and may itself contain dots (ports of a device that is a master).  Device
-   names cannot contain dots (the `name` pattern of /device), so at most one slave matches. *)
+   names cannot contain dots (the `name` pattern of /device), so at most one slave matches.
+   The rule is about records of collection slave_ports / SlavePort objects ONLY: a local (virtual or configured) port whose id
+   happens to start with a slave's name and a dot belongs to the hub; removing, disabling or editing the slave leaves it, its
+   definition and its record alone ([step] on ORemoveSlave / OEditSlave does not touch h_live, h_vports, st_ports, st_vports). *)
 Fixpoint starts_with (p s : string) : bool :=
   match p, s with
   | EmptyString, _ => true
